@@ -45,15 +45,14 @@ InitWith(c) ==
 (* ---- sending *)
 SendIf(ord, admitted(_)) ==       \* serialise the next box, provided the predicate admits it
     /\ nsent < Len(cfg.boxes)
-    /\ LET box == cfg.boxes[nsent + 1]
-           bytes == Norm(SerSeq(box, ord)) IN
-       /\ admitted(box)
-       /\ Len(ord) = Len(box)
+    /\ admitted(cfg.boxes[nsent + 1])
+    /\ Len(ord) = Len(cfg.boxes[nsent + 1])
+    /\ \E bytes \in {Norm(SerSeq(cfg.boxes[nsent + 1], ord))} :
        /\ nsent' = nsent + 1
        /\ wire' = RCat(wire, bytes)
-       /\ acc' = Append(acc, PlainBox(box))
+       /\ acc' = Append(acc, PlainBox(cfg.boxes[nsent + 1]))
        /\ ends' = Append(ends, RLen(wire) + RLen(bytes))
-       /\ segs' = segs \o SegSeq(box, ord)
+       /\ segs' = segs \o SegSeq(cfg.boxes[nsent + 1], ord)
        /\ last' = [e |-> "send", res |-> "ok", wr |-> bytes]
     /\ UNCHANGED <<cfg, pos, m>>
 
@@ -68,9 +67,8 @@ SendRefuse ==
 
 Deliver(n) ==
     /\ n >= 1 /\ pos + n <= RLen(wire)
-    /\ LET chunk == RTake(RDrop(wire, pos), n)
-           m2 == Drain([m EXCEPT !.buf = RCat(m.buf, chunk)]) IN
-       /\ m' = m2
+    /\ \E m2 \in {Drain([m EXCEPT !.buf = RCat(m.buf, RTake(RDrop(wire, pos), n))])} :     \* (bound once: TLC would
+       /\ m' = m2                                                                        \*  re-evaluate a LET at every use)
        /\ last' = [e |-> "deliver", n |-> n,
                    new |-> SubSeq(m2.out, Len(m.out) + 1, Len(m2.out)),
                    all |-> m2.out, closed |-> m2.closed]
